@@ -105,7 +105,7 @@ def gen_project(rng, size=None):
 
     for _ in range(rng.randint(1, 2 + 2 * size)):
         d = rng.choice(dirs)
-        stem = rng.choice(STEMS)
+        stem = rng.choice(STEMS + (["index", "index"] if d else []))     # index documents of sub-directories
         dn = (d + "/" if d else "") + stem
         if dn in used or dn.lower() in {u.lower() for u in used}:
             continue
@@ -124,7 +124,7 @@ def gen_project(rng, size=None):
                 lv = rng.randint(2, min(level + 1, 4))
                 h = rng.choice(HEADS)
                 key = re.sub(r"[^a-z0-9]+", "-", h[1].lower()).strip("-")
-                if seen_titles.get(key, 0) >= 2:
+                if seen_titles.get(key, 0) >= 3:       # up to three equal titles: slug, slug-1, slug-2
                     continue
                 seen_titles[key] = seen_titles.get(key, 0) + 1
                 lab = None
@@ -141,7 +141,8 @@ def gen_project(rng, size=None):
         p = (d + "/" if d else "") + rng.choice(EXTRA_NAMES)
         if p not in [e["path"] for e in extras]:
             extras.append({"path": p, "content": "content of %s #%d\n" % (p, rng.randint(0, 10 ** 6))})
-    desc = {"docs": docs, "extras": extras, "nitpick": [], "dirs": dirs}
+    desc = {"docs": docs, "extras": extras, "nitpick": [], "dirs": dirs,
+            "builder": "dirhtml" if rng.random() < 0.3 else "html"}
     if rng.random() < 0.15:
         desc["nitpick"] = ["ignored-target", "nodoc-ignored"]
     # an ambiguous name now and then: a label equal to a root-level docname
@@ -223,7 +224,7 @@ def describe_doc(doc):
         if lv <= 3:
             base = slug = slugify(text)
             k = 1
-            while slug in slugs:       # GitHub rule; at most two equal titles are generated per document
+            while slug in slugs:       # GitHub rule: counter appended to the base slug
                 slug = "%s-%d" % (base, k)
                 k += 1
             slugs.add(slug)
@@ -253,7 +254,23 @@ def gen_links(rng, desc):
     n = [0]
     per_doc = rng.randint(6, 14)
 
+    cur_inc = [None]
+
     def add(src, form, dest, intent, text=None):
+        if cur_inc[0] is not None:
+            inc = cur_inc[0]
+            base = dest
+            for sch in ("project:", "path:"):
+                if base.startswith(sch):
+                    base = base[len(sch):]
+            # location-dependent destinations must agree with how the prefix test will treat them
+            if intent.get("_from") == "frag" and not base.startswith(inc["prefix"]):
+                return
+            if intent.get("_from") == "doc" and base.startswith(inc["prefix"]) and not base.startswith("#"):
+                return
+            if "_from" not in intent and base.startswith(inc["prefix"]) and intent["kind"] != "quirk":
+                intent = {"kind": "quirk", "what": "rewritten-nonpath"}
+        intent = {k: v for k, v in intent.items() if k != "_from"}
         if text is None:
             text = rng.choice(TEXTS) if rng.random() < 0.5 else ("", "")
         if form == "auto" and " " in dest:
@@ -261,11 +278,30 @@ def gen_links(rng, desc):
         if form == "auto":
             text = ("", "")
         n[0] += 1
-        src["links"].append({"n": n[0], "form": form, "dest": dest, "text_md": text[0], "text_sig": text[1], "intent": intent})
+        l = {"n": n[0], "form": form, "dest": dest, "text_md": text[0], "text_sig": text[1], "intent": intent}
+        if cur_inc[0] is not None:
+            l["inc"] = cur_inc[0]
+        src["links"].append(l)
 
+    contexts = []
     for src in mds:
-        fd = doc_dir(src["docname"])
-        for _ in range(per_doc):
+        contexts.append((src, None))
+        if rng.random() < 0.3:
+            # a file pulled in with {include} :relative-docs: <prefix> ; it lives in any directory
+            fdir = rng.choice(desc["dirs"])
+            inc = {"path": (fdir + "/" if fdir else "") + "part-%d.inc" % len(contexts),
+                   "prefix": rng.choice([".", "..", "../", "./"]), "images": rng.random() < 0.5}
+            contexts.append((src, inc))
+    for src, inc in contexts:
+        cur_inc[0] = inc
+        own_dir = doc_dir(src["docname"])
+        for _ in range(per_doc if inc is None else rng.randint(4, 9)):
+            # inside an included file a path is read relative to the included file when it starts with the
+            # prefix (it is rewritten), otherwise relative to the including document
+            if inc is not None and rng.random() < 0.7:
+                fd, origin = doc_dir(inc["path"]), "frag"
+            else:
+                fd, origin = own_dir, ("doc" if inc is not None else None)
             r = rng.random()
             if r < 0.40:                                   # ---- another (or the same) source file
                 tgt = rng.choice(docs)
@@ -275,7 +311,7 @@ def gen_links(rng, desc):
                 scheme = rng.choice(["", "", "", "project:"])
                 form = "auto" if scheme and rng.random() < 0.5 else "inline"
                 a = rng.random()
-                intent = {"kind": "doc", "doc": tgt["docname"], "style": style, "scheme": scheme}
+                intent = {"kind": "doc", "doc": tgt["docname"], "style": style, "scheme": scheme, "_from": origin}
                 if a < 0.45:
                     add(src, form, scheme + sp, intent)
                 elif a < 0.75 and hs:
@@ -308,16 +344,25 @@ def gen_links(rng, desc):
                     kind = "quirk"
                 else:
                     kind = "doc"
-                if rng.random() < 0.2 and describe_doc(tgt):
-                    add(src, "inline", sp + "#" + (describe_doc(tgt)[0]["slug"] or "x"),
-                        {"kind": "missing", "what": "docname-with-anchor", "name": sp})
+                hs = describe_doc(tgt)
+                a = rng.random()
+                if a < 0.25 and hs and kind == "doc":
+                    # docname#anchor (resolved like docname.md#anchor since the repair)
+                    j = rng.randrange(len(hs))
+                    if hs[j]["slug"] is not None and a < 0.18:
+                        add(src, "inline", sp + "#" + hs[j]["slug"],
+                            {"kind": "doc-anchor", "doc": tgt["docname"], "heading": j, "style": style, "scheme": "noext", "_from": origin})
+                    else:
+                        add(src, "inline", sp + "#nosuch",
+                            {"kind": "anchor-missing", "doc": tgt["docname"], "anchor": "nosuch", "style": style, "scheme": "noext",
+                             "_from": origin})
                 else:
-                    add(src, "inline", sp, {"kind": kind, "doc": tgt["docname"], "style": style, "scheme": "noext"})
+                    add(src, "inline", sp, {"kind": kind, "doc": tgt["docname"], "style": style, "scheme": "noext", "_from": origin})
             elif r < 0.67 and labels:                      # ---- project-wide label
                 (name, ldoc, lid, sect) = rng.choice(labels)
                 sty = rng.choice(["#", "#", "bare", "project:#"])
                 written = name
-                if rng.random() < 0.15 and name.isascii():     # case folding is modelled for ASCII only
+                if rng.random() < 0.15:                # str.lower() is modelled below U+0250 (regenerated table)
                     written = name.upper() if rng.random() < 0.5 else name.capitalize()
                 form = "auto" if sty == "project:#" and rng.random() < 0.6 else "inline"
                 dest = {"#": "#" + written, "bare": written, "project:#": "project:#" + written}[sty]
@@ -333,20 +378,21 @@ def gen_links(rng, desc):
                 form = "auto" if scheme and rng.random() < 0.5 else "inline"
                 if rng.random() < 0.12:
                     # a fragment after a file name: dropped for plain links, part of the file name for path:
-                    add(src, form, scheme + sp + "#frag", {"kind": "quirk"} if scheme else
-                        {"kind": "file", "path": e["path"], "style": style, "scheme": scheme, "shown": sp})
+                    add(src, form, scheme + sp + "#frag", {"kind": "quirk", "_from": origin} if scheme else
+                        {"kind": "file", "path": e["path"], "style": style, "scheme": scheme, "shown": sp, "_from": origin})
                 else:
-                    add(src, form, scheme + sp, {"kind": "file", "path": e["path"], "style": style, "scheme": scheme, "shown": sp})
+                    add(src, form, scheme + sp, {"kind": "file", "path": e["path"], "style": style, "scheme": scheme, "shown": sp,
+                                                 "_from": origin})
             elif r < 0.97:                                 # ---- missing targets
                 m = rng.random()
                 nit = desc["nitpick"]
                 if m < 0.2:
                     sp, style = spell(rng, fd, rng.choice(desc["dirs"] + ["zz"]).strip("/") + "/nodoc.md")
                     sp = sp.lstrip("/") if sp.startswith("//") else sp
-                    add(src, "inline", sp, {"kind": "missing", "what": "doc-file", "name": "nodoc"})
+                    add(src, "inline", sp, {"kind": "missing", "what": "doc-file", "name": "nodoc", "_from": origin})
                 elif m < 0.35:
                     sp, style = spell(rng, fd, "nodoc2.md")
-                    add(src, rng.choice(["inline", "auto"]), "project:" + sp, {"kind": "missing", "what": "project-doc", "name": "nodoc2"})
+                    add(src, rng.choice(["inline", "auto"]), "project:" + sp, {"kind": "missing", "what": "project-doc", "name": "nodoc2", "_from": origin})
                 elif m < 0.5:
                     w = rng.choice(["nolabel", "no-such-label"] + (["ignored-target"] if nit else []))
                     add(src, "inline", rng.choice(["#", ""]) + w, {"kind": "missing", "what": "label", "name": w,
@@ -361,7 +407,7 @@ def gen_links(rng, desc):
                     e = rng.choice(desc["extras"])
                     sp, style = spell(rng, fd, e["path"])
                     add(src, rng.choice(["inline", "auto"]), "project:" + sp,
-                        {"kind": "missing", "what": "project-nondoc", "name": posixpath.basename(e["path"])})
+                        {"kind": "missing", "what": "project-nondoc", "name": posixpath.basename(e["path"]), "_from": origin})
                 elif m < 0.92:
                     plab = [l for l in labels if l[3] is None]
                     if plab:
@@ -376,7 +422,7 @@ def gen_links(rng, desc):
             elif desc.get("ambiguous") and rng.random() < 0.5:  # ---- a name that is both a label and a docname
                 amb = desc["ambiguous"]
                 sp, style = spell(rng, fd, [d["docname"] for d in docs if d["docname"].lower() == amb][0])
-                add(src, "inline", rng.choice([sp, "#" + amb, amb]), {"kind": "quirk", "what": "ambiguous"})
+                add(src, "inline", rng.choice([sp, "#" + amb, amb]), {"kind": "quirk", "what": "ambiguous", "_from": origin})
             else:                                          # ---- quirk spellings: model correspondence only
                 tgt = rng.choice(docs)
                 p = tgt["docname"] + tgt["ext"]
@@ -385,6 +431,12 @@ def gen_links(rng, desc):
                                 "../" * 5 + tgt["docname"],
                                 "foo:bar", "c:" + p, "./" + p + "#a#b", posixpath.dirname(p) or "a", "Project:" + p])
                 add(src, "inline", q, {"kind": "quirk"})
+                if rng.random() < 0.3:
+                    # %00 decodes to a NUL character: not a path at all (was: ValueError, fixed by 9a2ab65)
+                    sch = rng.choice(["", "project:", "path:"])
+                    add(src, "inline", sch + "a\x00b" + rng.choice([".md", ".txt", ""]),
+                        {"kind": "missing", "what": "nul", "name": "a"})
+                    src["links"][-1]["md_dest"] = src["links"][-1]["dest"].replace("\x00", "%00")
 
 
 # =========================================================================== rendering sources
@@ -394,9 +446,10 @@ def needs_angle(dest):
 
 
 def link_md(l):
+    dest = l.get("md_dest", l["dest"])      # md_dest: how the destination is written when it differs (percent escapes)
     if l["form"] == "auto":
-        return "<%s>" % l["dest"]
-    d = "<%s>" % l["dest"] if needs_angle(l["dest"]) else l["dest"]
+        return "<%s>" % dest
+    d = "<%s>" % dest if needs_angle(dest) else dest
     return "[%s](%s)" % (l["text_md"], d)
 
 
@@ -418,9 +471,22 @@ def render_doc(desc, doc):
         else:
             np += 1
             lines += ["Paragraph number %d." % np, ""]
+    incs = {}
     for l in doc["links"]:
+        if l.get("inc"):
+            incs.setdefault(l["inc"]["path"], (l["inc"], []))[1].append(l)
+            continue
         at[l["n"]] = len(lines) + 1
         lines += ["L%d %s" % (l["n"], link_md(l)), ""]
+    frags = {}
+    for path, (inc, ls) in incs.items():
+        fl = []
+        for l in ls:
+            at[l["n"]] = len(fl) + 1
+            fl += ["L%d %s" % (l["n"], link_md(l)), ""]
+        frags[path] = "\n".join(fl) + "\n"
+        lines += ["```{include} /" + path, ":relative-docs: " + inc["prefix"]] + ([":relative-images:"] if inc.get("images") else []) + ["```", ""]
+    doc["_frags"] = frags
     if doc["docname"] == "index":
         lines += ["```{toctree}", ":hidden:", ""] + [d["docname"] for d in desc["docs"] if d["docname"] != "index"] + ["```", ""]
     return "\n".join(lines) + "\n", at
@@ -432,6 +498,7 @@ def project_files(desc):
         src, at = render_doc(desc, d)
         files[d["docname"] + d["ext"]] = src
         lines[d["docname"]] = at
+        files.update(d.pop("_frags", {}))
     for e in desc["extras"]:
         files[e["path"]] = e["content"]
     conf = CONF
@@ -439,6 +506,31 @@ def project_files(desc):
         conf += "nitpick_ignore = %r\n" % [("myst", t) for t in desc["nitpick"]]
     files["conf.py"] = conf
     return files, lines
+
+
+def link_file(doc, l):
+    """the source file a link is written in (the included file for links of an {include}d fragment)"""
+    return l["inc"]["path"] if l.get("inc") else doc["docname"] + doc["ext"]
+
+
+def page_uri(desc, docname):
+    """the builder's URI of a document's page, relative to the output directory"""
+    if desc.get("builder") == "dirhtml":
+        if docname == "index":
+            return ""
+        if docname.endswith("/index"):
+            return docname[:-5]
+        return docname + "/"
+    return docname + ".html"
+
+
+def out_file(desc, docname):
+    u = page_uri(desc, docname)
+    return u + "index.html" if desc.get("builder") == "dirhtml" else u
+
+
+def canon_uri(u):
+    return posixpath.normpath(u or ".")
 
 
 # =========================================================================== building + observation
@@ -559,7 +651,7 @@ def parse_warning_stream(text, src):
         m = re.match(r"^(?:(?P<f>[^:\s][^:]*?):(?:(?P<l>\d+):)? )?(?P<lvl>WARNING|ERROR|CRITICAL): (?P<msg>.*?)(?: \[(?P<tag>[A-Za-z0-9_.\-]+)\])?$", ln)
         if m:
             f = m.group("f")
-            if f and f.endswith(".md.rst"):
+            if f and (f.endswith(".md.rst") or f.endswith(".inc.rst")):
                 # warnings logged with location=(source path, line) are printed by Sphinx 8 through doc2path(),
                 # which appends the first source suffix to the (unknown) "docname": x.md -> x.md.rst
                 f = f[:-4]
@@ -590,8 +682,8 @@ def build_project(desc):
         obs = {"srcdir": src, "lines": {k: {str(n): l for n, l in v.items()} for k, v in lines.items()}}
         try:
             with docutils_namespace(), patch_docutils():
-                app = Sphinx(src, src, out, os.path.join(d, "doctrees"), "html", status=status, warning=warning,
-                             freshenv=True, parallel=0)
+                app = Sphinx(src, src, out, os.path.join(d, "doctrees"), desc.get("builder", "html"), status=status,
+                             warning=warning, freshenv=True, parallel=0)
                 app.build()
                 build_warnings = warning.getvalue()   # before get_and_resolve_doctree re-runs the resolver
                 env = app.env
@@ -674,7 +766,8 @@ def children_sig(l):
 
 def model_line(desc, obs):
     src = [s for s in obs["srcdir"].split("/") if s]
-    toks = ["run", "S", enc_strs(src), enc_strs(SUFFIXES), enc_strs(desc.get("nitpick", [])), enc_strs(URL_SCHEMES)]
+    toks = ["run", "S", enc_strs(src), enc_strs(SUFFIXES), enc_strs(desc.get("nitpick", [])), enc_strs(URL_SCHEMES),
+            "1" if desc.get("builder") == "dirhtml" else "0"]
     files, _ = project_files(desc)
     for f in files:
         toks += ["F", enc_strs(f.split("/"))]
@@ -698,8 +791,11 @@ def model_line(desc, obs):
             continue
         toks += ["C", enc_str(d["docname"])]
         for l in d["links"]:
+            inc = l.get("inc")
             toks += ["L", enc_str(l["dest"]), "1" if l["form"] == "auto" else "0",
-                     "1" if (l["form"] == "auto" or l["text_md"]) else "0"]
+                     "1" if (l["form"] == "auto" or l["text_md"]) else "0",
+                     enc_ostr(inc["prefix"] if inc else None),
+                     enc_strs([x for x in doc_dir(inc["path"]).split("/") if x]) if inc else "."]
             order.append((d["docname"], l))
     return "\t".join(toks), order
 
@@ -736,8 +832,11 @@ def decode_outcome(s, l):
     return cls.split(":")[0], tgt, sig, warns
 
 
-def warnings_at(obs, docname, ext, line):
-    return [(w[2], w[3]) for w in obs["warnings"] if w[0] == docname + ext and w[1] == line]
+def warnings_at(obs, path, line):
+    # inside an {include}d file the reported line is one too high (nested_render_text is started at startline + 1;
+    # source lines are property C04's subject): links are two lines apart, so both are accepted there
+    ok = (line, line + 1) if path.endswith(".inc") else (line,)
+    return [(w[2], w[3]) for w in obs["warnings"] if w[0] == path and w[1] in ok]
 
 
 def check_env(ctx, desc, obs):
@@ -768,7 +867,7 @@ def link_bucket(src_doc, l):
     sd = src_doc.count("/")
     td = it.get("doc", it.get("path", "")).count("/") if (it.get("doc") or it.get("path")) else -1
     return (sd, td, it.get("style", ""), it.get("scheme", ""), l["form"], "explicit" if l["text_md"] else "empty",
-            it["kind"], it.get("what", ""))
+            it["kind"], it.get("what", ""), "included" if l.get("inc") else "")
 
 
 def nontrivial(src_doc, l):
@@ -783,14 +882,14 @@ def corr_project(ctx, desc, obs, line_reply):
     if len(replies) != len(order):
         ctx.disagree("model-reply", {"kind": "project", "desc": desc}, len(order), line_reply[2][:300])
         return
-    exts = {d["docname"]: d["ext"] for d in desc["docs"]}
+    docs_by = {d["docname"]: d for d in desc["docs"]}
     for (docname, l), rep in zip(order, replies):
         ctx.corr_cases += 1
         cls, m_tgt, m_sig, m_warns = decode_outcome(rep, l)
         o = obs["doctree"].get(docname, {}).get(str(l["n"]))
         o_tgt, o_sig = (o[0], o[1]) if o else ("?:no-paragraph", "")
         lineno = obs["lines"][docname][str(l["n"])]
-        o_warns = warnings_at(obs, docname, exts[docname], lineno)
+        o_warns = warnings_at(obs, link_file(docs_by[docname], l), lineno)
         ctx.count("corr:" + cls + ":" + m_tgt.split(":")[0] + (":warn" if m_warns else ""))
         if nontrivial(docname, l):
             ctx.nontriv(link_bucket(docname, l))
@@ -860,6 +959,7 @@ def corr_pathfns(ctx):
         want = m.group(1) if m else None
         if dec_ostr(o) != want:
             ctx.disagree("pathfn:scheme", {"kind": "pathfn", "fn": "scheme", "args": [s]}, want, dec_ostr(o))
+    corr_exhaustive(ctx)
     # round trip on the implementation's own function (what C12_relative_uri_roundtrip proves for the model)
     segs = ["a", "b", "c", "pkg", "x_y", "one", "v1.2"]
     for _ in range(ctx.budget(2000, 20000, 20000)):
@@ -871,6 +971,81 @@ def corr_pathfns(ctx):
         ctx.count("pathfn:roundtrip")
         if back != to:
             ctx.disagree("pathfn:roundtrip", {"kind": "pathfn", "fn": "relative_uri", "args": [fr, to]}, back, to)
+
+
+def seg_lists(alpha, maxlen):
+    import itertools
+    for k in range(maxlen + 1):
+        for t in itertools.product(alpha, repeat=k):
+            yield list(t)
+
+
+def corr_exhaustive(ctx):
+    """Every small path over the segments '', '.', '..', 'a', 'b' (so: empty segments, dot segments at every
+    position, trailing slashes) with 0-3 leading slashes, through the library functions and the model."""
+    import posixpath as pp
+    import types
+    from sphinx.builders.dirhtml import DirectoryHTMLBuilder
+    from sphinx.builders.html import StandaloneHTMLBuilder
+    from sphinx.util import docname_join
+    from sphinx.util.osutil import relative_uri
+    A = ["", ".", "..", "a", "b"]
+    big = ctx.budget(2, 3, 3)
+    singles = [pre + "/".join(l) for l in seg_lists(A, 4) for pre in ("", "/", "//", "///")]
+    mids = [pre + "/".join(l) for l in seg_lists(A, big) for pre in ("", "/")]
+    smalls = [pre + "/".join(l) for l in seg_lists(A, 2) for pre in ("", "/")]
+    uris = [u + f for u in mids for f in ("", "#f")]
+    reqs = [("normpath", (p,), pp.normpath(p)) for p in singles]
+    reqs += [("docname_join", (b, d), docname_join(b, d)) for b in smalls for d in mids]
+    reqs += [("relative_uri", (b, t), relative_uri(b, t)) for b in uris for t in uris]
+    reqs += [("pjoin", (a, b, c), pp.join(a, b, c)) for a in smalls[:14] for b in smalls[:14] for c in smalls[:14]]
+    absol = ["/" + "/".join(l) for l in seg_lists(A, 3)]
+    reqs += [("relpath", (p, st), pp.relpath(p, st)) for p in absol for st in absol[:31]]
+    dn_alpha = ["a", "index", "b", ""]
+    dns = ["/".join(l) for l in seg_lists(dn_alpha, 3)]
+    html = types.SimpleNamespace(link_suffix=".html")
+    reqs += [("target_uri", ("1", d), DirectoryHTMLBuilder.get_target_uri(None, d)) for d in dns]
+    reqs += [("target_uri", ("0", d), StandaloneHTMLBuilder.get_target_uri(html, d)) for d in dns]
+    rng = ctx.rng
+    lows = [chr(c) for c in range(0x250)] + ["".join(chr(rng.randrange(0x250)) for _ in range(rng.randint(0, 8))) for _ in range(2000)]
+    reqs += [("lower", (x,), x.lower()) for x in lows]
+    lines = ["\t".join([f] + [a if f == "target_uri" and i == 0 else enc_str(a) for i, a in enumerate(args)]) for f, args, _ in reqs]
+    outs = model_run(PID, lines)
+    for (f, args, want), o in zip(reqs, outs):
+        ctx.corr_cases += 1
+        ctx.count("pathfn:exhaustive:" + f)
+        if dec_str(o) != want:
+            ctx.disagree("pathfn:" + f, {"kind": "pathfn", "fn": f, "args": list(args)}, want, dec_str(o))
+    # the premises of C12_relative_uri_roundtrip are needed for the real function as well: outside them
+    # (dot / empty / '#' segments) the round trip fails on some inputs, inside it never does
+    def normal(u):
+        segs = u.split("/")
+        return all(x not in ("", ".", "..") and "#" not in x for x in segs[:-1]) and segs[-1] not in (".", "..") \
+            and "#" not in segs[-1] and not u.startswith("/")
+    def back(fr, rel):
+        if rel == "":
+            return fr
+        segs = fr.split("/")[:-1] + rel.split("/")
+        out = []
+        for x in segs:
+            if x in ("", "."):
+                continue
+            if x == "..":
+                if out:
+                    out.pop()
+            else:
+                out.append(x)
+        return "/".join(out + ([""] if segs[-1] in ("", ".", "..") else []))
+    for fr in mids:
+        for to in mids:
+            ok = back(fr, relative_uri(fr, to)) == to
+            if normal(fr) and normal(to):
+                ctx.corr_cases += 1
+                ctx.count("pathfn:roundtrip-normal")
+                if not ok:
+                    ctx.disagree("pathfn:roundtrip", {"kind": "pathfn", "fn": "relative_uri", "args": [fr, to]}, back(fr, relative_uri(fr, to)), to)
+            elif not ok:
+                ctx.count("pathfn:roundtrip-fails-outside-premise")
 
 
 def corr_relfn(ctx, descs_obs):
@@ -894,6 +1069,12 @@ def corr_relfn(ctx, descs_obs):
             env.find_files(app.config, app.builder)
             srcsegs = [s for s in src.split("/") if s]
             cases, lines = [], []
+            for fn in [pre + "/".join(l) for l in seg_lists(["", ".", "..", "a", "one.md", "\\"], 3) for pre in ("", "/", "//", "///")]:
+                for dn in ("index", "a/one", "a/b/two"):
+                    cases.append((fn, dn))
+                    dd = [x for x in doc_dir(dn).split("/") if x]
+                    lines.append("\t".join(["path2doc", enc_strs(SUFFIXES), enc_strs(srcsegs), enc_strs(dd), enc_str(fn)]))
+                    lines.append("\t".join(["relfn2path", enc_strs(srcsegs), enc_strs(dd), enc_str(fn)]))
             for _ in range(ctx.budget(3000, 40000, 40000)):
                 fn = rand_path(rng)
                 if rng.random() < 0.3:
@@ -967,50 +1148,70 @@ def corr(ctx):
 # =========================================================================== direct property oracle
 
 def resolve_href(page, href):
-    """(target page or URL, fragment|None) of an href found on [page] (path relative to the output dir)."""
+    """(canonical target URI or URL, fragment|None) of an href found on the page with URI [page]."""
     if re.match(r"^[a-zA-Z][a-zA-Z0-9+.-]*:", href):
         return href, None
     path, sep, frag = unquote(href).partition("#")
     if path == "":
-        return page, (frag or None)
+        return canon_uri(page), (frag or None)
     return posixpath.normpath(posixpath.join(posixpath.dirname(page), path)), (frag or None)
+
+
+def shown_path(desc, src_doc, l, path):
+    """what a download link without text shows: the destination as written - or, inside an included file
+    whose prefix matches, the path from the including document's directory"""
+    it = l["intent"]
+    inc = l.get("inc")
+    base = l["dest"][len(it["scheme"]):] if it.get("scheme") in ("path:", "project:") else l["dest"]
+    base = base.split("#")[0] if not it.get("scheme") else base
+    if inc and base.startswith(inc["prefix"]):
+        return posixpath.relpath("/" + path, "/" + doc_dir(src_doc))
+    return base
 
 
 def expect(desc, src_doc, l):
     """Independent expectation from the generator's intent:
-    dict(page, frag, text, missing:int, name) or None when the property makes no claim."""
+    dict(doc, frag, text, missing:int, name) or None when the property makes no claim."""
     it = l["intent"]
     k = it["kind"]
     docs = {d["docname"]: d for d in desc["docs"]}
     explicit = l["form"] != "auto" and bool(l["text_md"])
     if k == "doc":
         t = docs[it["doc"]]
-        return {"page": it["doc"] + ".html", "frag": None, "text": l["text_sig"] if explicit else t["title"], "missing": 0}
+        return {"doc": it["doc"], "frag": None, "text": l["text_sig"] if explicit else t["title"], "missing": 0}
     if k == "doc-anchor":
         t = docs[it["doc"]]
         h = describe_doc(t)[it["heading"]]
-        return {"page": it["doc"] + ".html", "frag": h["id"], "section": it["heading"],
+        return {"doc": it["doc"], "frag": h["id"], "section": it["heading"],
                 "text": l["text_sig"] if explicit else h["text"], "missing": 0}
     if k == "anchor-missing":
-        return {"page": it["doc"] + ".html", "frag": it["anchor"], "text": l["text_sig"] if explicit else None,
+        # the link still leads to the document; without link text the target is shown
+        return {"doc": it["doc"], "frag": it["anchor"],
+                "text": l["text_sig"] if explicit else "c(%s#%s)" % (it["doc"], it["anchor"]),
                 "missing": 1, "name": it["anchor"]}
     if k == "label":
         if it["sect"] is None and not explicit:
             # a label on a paragraph has no title to show.  Inside its own document a '#label' link is
             # resolved by the local transform and shows '#label'; from elsewhere it counts as unresolved.
             if it["doc"] == src_doc and it["style"] in ("#", "project:#") and it["written"] == it["label"]:
-                return {"page": src_doc + ".html", "frag": it["id"], "label": True, "text": "#" + it["label"], "missing": 0}
-            return {"page": None, "text": None, "missing": 1, "name": it["written"]}
-        return {"page": it["doc"] + ".html", "frag": it["id"], "label": True,
+                return {"doc": src_doc, "frag": it["id"], "label": True, "text": "#" + it["label"], "missing": 0}
+            return {"doc": None, "text": None, "nonempty": True, "missing": 1, "name": it["written"]}
+        return {"doc": it["doc"], "frag": it["id"], "label": True,
                 "text": l["text_sig"] if explicit else it["sect"], "missing": 0}
     if k == "builtin":
         return None
     if k == "file":
-        return {"download": it["path"], "text": l["text_sig"] if explicit else "c(%s)" % it["shown"], "missing": 0}
+        return {"download": it["path"], "missing": 0,
+                "text": l["text_sig"] if explicit else "c(%s)" % shown_path(desc, src_doc, l, it["path"])}
     if k == "missing":
+        # rendered as an ordinary URL link (project:/path: to something that is no document/file): Markdown's
+        # own rule for empty link text applies; every other unresolved link shows a fallback text
+        url_like = it["what"] in ("project-nondoc", "path-file") or (
+            it["what"] == "nul" and l["dest"].startswith(("project:", "path:")))
         if it.get("ignored"):
-            return {"page": None, "text": l["text_sig"] if explicit else None, "missing": 0}
-        return {"page": None, "text": l["text_sig"] if explicit else None, "missing": 1, "name": it["name"], "what": it["what"]}
+            return {"doc": None, "text": l["text_sig"] if explicit else None, "nonempty": True, "missing": 0}
+        return {"doc": None, "text": l["text_sig"] if explicit else None, "nonempty": not url_like,
+                "missing": 1, "name": it["name"], "what": it["what"]}
     return None
 
 
@@ -1024,12 +1225,13 @@ def check_link(ctx, desc, obs, src_doc, l):
         ctx.nontriv(link_bucket(src_doc, l))
     if ex is None:
         return True
-    exts = {d["docname"]: d["ext"] for d in desc["docs"]}
-    page = src_doc + ".html"
+    docs_by = {d["docname"]: d for d in desc["docs"]}
+    page = page_uri(desc, src_doc)
+    srcfile = link_file(docs_by[src_doc], l)
     witness = {"kind": "link", "desc": reduce_desc(desc, src_doc, l["n"]), "doc": src_doc, "n": l["n"]}
-    h = obs["html"].get(page, {}).get(str(l["n"]))
+    h = obs["html"].get(out_file(desc, src_doc), {}).get(str(l["n"]))
     lineno = obs["lines"][src_doc][str(l["n"])]
-    warns = warnings_at(obs, src_doc, exts[src_doc], lineno)
+    warns = warnings_at(obs, srcfile, lineno)
     missing = [(t, m) for t, m in warns if t == "myst.xref_missing"]
     others = [(t, m) for t, m in warns if t != "myst.xref_missing"]
     kind = it["kind"] + (":" + it["what"] if it.get("what") else "")
@@ -1039,7 +1241,7 @@ def check_link(ctx, desc, obs, src_doc, l):
     def fail(aspect, what, expected, observed):
         nonlocal ok
         ok = False
-        ctx.fail("link:%s:%s" % (kind, aspect), witness, "%s in %s: %s" % (md[:80], src_doc + exts[src_doc], what),
+        ctx.fail("link:%s:%s" % (kind, aspect), witness, "%s in %s (%s builder): %s" % (md[:80], srcfile, desc.get("builder", "html"), what),
                  expected=expected, observed=observed)
 
     if h is None:
@@ -1058,6 +1260,8 @@ def check_link(ctx, desc, obs, src_doc, l):
     # --- text
     if ex.get("text") is not None and sig != ex["text"]:
         fail("text", "link text differs", ex["text"], sig)
+    elif ex.get("text") is None and ex.get("nonempty") and not sig.strip():
+        fail("fallback-text", "an unresolved link without link text shows nothing", "some text naming the target", sig)
     # --- target
     if "download" in ex:
         if href is None:
@@ -1070,22 +1274,23 @@ def check_link(ctx, desc, obs, src_doc, l):
                     or obs["outfiles"].get(tgt) != want:
                 fail("uri", "the href does not lead to a copy of the file", "_downloads/<dir>/%s with the file's content" % posixpath.basename(ex["download"]),
                      {"href": href, "resolved": tgt, "copy_present": tgt in obs["outfiles"]})
-    elif ex.get("page"):
+    elif ex.get("doc"):
+        want_uri = canon_uri(page_uri(desc, ex["doc"]))
         if href is None:
-            fail("uri", "no href", ex["page"], None)
+            fail("uri", "no href", want_uri, None)
         else:
             tgt, frag = resolve_href(page, href)
-            if tgt != ex["page"] or (frag or None) != ex["frag"]:
-                fail("uri", "href resolves to the wrong place", [ex["page"], ex["frag"]], {"href": href, "resolved": [tgt, frag]})
+            if tgt != want_uri or (frag or None) != ex["frag"]:
+                fail("uri", "href resolves to the wrong place", [want_uri, ex["frag"]], {"href": href, "resolved": [tgt, frag]})
             elif ex["missing"] == 0:
-                if tgt not in obs["html"]:
-                    fail("uri", "the target page was not written", ex["page"], sorted(obs["html"])[:20])
+                of = out_file(desc, ex["doc"])
+                if of not in obs["html"]:
+                    fail("uri", "the target page was not written", of, sorted(obs["html"])[:20])
                 elif frag is not None:
-                    tdoc = tgt[:-5]
-                    if frag not in obs.get("html_ids", {}).get(tgt, []):
-                        fail("uri", "the fragment is not an id of the target page", frag, obs.get("html_ids", {}).get(tgt, [])[:30])
+                    if frag not in obs.get("html_ids", {}).get(of, []):
+                        fail("uri", "the fragment is not an id of the target page", frag, obs.get("html_ids", {}).get(of, [])[:30])
                     elif "section" in ex:
-                        secs = obs["section_ids"].get(tdoc, [])
+                        secs = obs["section_ids"].get(ex["doc"], [])
                         if ex["section"] >= len(secs) or frag not in secs[ex["section"]]:
                             fail("uri", "the fragment is not an id of the intended section", ex["section"], secs)
     return ok
@@ -1134,8 +1339,8 @@ def search_projects(ctx, descs, obss):
             for l in d["links"]:
                 check_link(ctx, desc, obs, d["docname"], l)
         # stray warnings: everything in the stream must belong to a link line
-        lines = {(dn + ext, ln) for dn, ext in ((d["docname"], d["ext"]) for d in desc["docs"])
-                 for ln in obs["lines"].get(dn, {}).values()}
+        lines = {(link_file(d, l), obs["lines"][d["docname"]][str(l["n"])] + k) for d in desc["docs"] for l in d["links"]
+                 for k in ((0, 1) if l.get("inc") else (0,))}
         for w in obs["warnings"]:
             if (w[0], w[1]) not in lines:
                 ctx.search_cases += 1
@@ -1144,7 +1349,7 @@ def search_projects(ctx, descs, obss):
 
 
 KNOWN_WITNESSES = [
-    # path: link to a file that does not exist (open finding, reproduced on every run)
+    # path: link to a file that does not exist (fixed by 30d027a: one myst.xref_missing)
     {"kind": "link", "doc": "index", "n": 1, "desc": {
         "docs": [{"docname": "index", "ext": ".md", "title_md": "Index Title", "title": "Index Title", "blocks": [],
                   "links": [{"n": 1, "form": "auto", "dest": "path:nofile.txt", "text_md": "", "text_sig": "",
@@ -1166,8 +1371,9 @@ def search(ctx):
             check_witness(ctx, c)
             done += 1
     if not ctx.deep:
-        for w in KNOWN_WITNESSES:
-            check_witness(ctx, w)
+        from lib.common import load_known
+        for w in KNOWN_WITNESSES + [k["witness"] for k in load_known() if k["property"] == PID and k.get("witness")]:
+            check_witness(ctx, w)            # regression witnesses of the repaired defects
         descs, obss = projects_for(ctx, 0)
         search_projects(ctx, descs, obss)
     else:
